@@ -123,3 +123,77 @@ def api_call(job):
             out["alt"] = [["!" + exc_name(e), -1, -1]]
             out["hasalt"] = 1
     return out
+
+
+# ---------------------------------------------------------------------------------------------
+# MUB families
+# ---------------------------------------------------------------------------------------------
+def mub_family(job):
+    """job = (n, conn) -> everything the three MUB APIs return, projected; plus the library's readout circuits."""
+    from fractions import Fraction
+    n, conn = job
+    lib = L()
+    out = {"n": n, "conn": conn, "exc": None}
+    try:
+        mubs = lib.mub_circuits.get_mubs(n, conn)
+        circs = lib.mub_circuits.get_mub_circuits(n, conn)
+        info = lib.mub_circuits.get_mub_info(n, conn)
+        out["bases"] = [[list(s) for s in b] for b in mubs]
+        out["circuits"] = [impl.gates_of(c) for c in circs]
+        avg = Fraction(info["average two-qubit count"]).limit_denominator(1 << 20)
+        out["info"] = {"num": int(info["num circuits"]), "maxcost": int(info["max two-qubit count"]),
+                       "maxdepth": int(info["max two-qubit depth"]), "avg": [avg.numerator, avg.denominator]}
+        out["info_keys"] = sorted(info.keys())
+        ro = []
+        for b in mubs:
+            try:
+                ro.append(impl.gates_of(lib.stabilizer_circuits.get_readout_circuit(lib.stabilizer.Stabilizer(list(b)), conn)))
+            except Exception as e:
+                ro.append([["!" + exc_name(e), -1, -1]])
+        out["readouts"] = ro
+    except Exception as e:
+        out["exc"] = exc_name(e) + ": " + str(e)[:200]
+    return out
+
+
+# ---------------------------------------------------------------------------------------------
+# connectivity graphs, measurement circuits
+# ---------------------------------------------------------------------------------------------
+def conn_graph(job):
+    n, conn = job
+    lib = L()
+    g = lib.connectivity_support.get_connectivity_graph(n, conn)
+    return {"op": "conn_graph", "n": n, "conn": conn, "edges": [[int(a), int(b)] for a, b in g.get_edges()],
+            "nv": int(g.num_vertices), "rows": impl.graph_rows(g)}
+
+
+def meas_circuits(job):
+    """job: {"N", "m", "list" (or None), "conn", "prep": gates, "what": "tomo" | "stab", "codes": stabilizer to measure}
+    -> list of `meas` trace records (one per delivered circuit)."""
+    lib = L()
+    N, m, lst, conn = job["N"], job["m"], job["list"], job["conn"]
+    prep = impl.circuit_from_gates(N, job["prep"])
+    before = impl.gates_of(prep)
+    out = []
+    try:
+        if job["what"] == "tomo":
+            circs = lib.tomography.full_state_tomography_circuits(prep, conn, lst)
+        else:
+            st = stab_from_codes(m, job["codes"], "matrices")
+            circs = [lib.tomography.stabilizer_measurement_circuit(prep, st, conn, lst)]
+    except Exception as e:
+        return [{"kind": "meas", "exc": exc_name(e) + ": " + str(e)[:200], "job": job}]
+    unchanged = 1 if impl.gates_of(prep) == before else 0
+    for i, qc in enumerate(circs):
+        gates, measures = impl.split_measure(impl.gates_of(qc))
+        try:
+            info = qc.metadata["readout info"]
+            ro = impl.gates_of(info.circuit)
+            meta_ok = 1 if (info.total_num_qubits == N and (info.qubits is None) == (lst is None)
+                            and (lst is None or list(info.qubits) == list(lst))) else 0
+        except Exception:
+            ro, meta_ok = [["!nometadata", -1, -1]], 0
+        out.append({"kind": "meas", "n": N, "m": m, "list": list(lst) if lst is not None else list(range(N)), "conn": conn,
+                    "preplen": len(before), "prep": before, "gates": gates, "measures": measures, "ro": ro,
+                    "metaok": meta_ok, "unchanged": unchanged, "nq": qc.num_qubits, "what": job["what"], "index": i, "exc": ""})
+    return out
